@@ -61,6 +61,7 @@ func main() {
 	replayPath := flag.String("replay", "", "re-run a recorded replay file")
 	only := flag.String("only", "", "debug: restrict to obligations whose name contains this substring (never writes evidence)")
 	updExp := flag.Bool("update-expected", false, "record the obligations that discharge now in expected_obligations.json")
+	updSym := flag.Bool("update-symbols", false, "record the named locals of every function in symbols.json and exit")
 	flag.Parse()
 	t0 := time.Now()
 
@@ -80,6 +81,10 @@ func main() {
 		return
 	}
 	e := newEngine(p)
+	if *updSym {
+		e.saveSymbols(*verif)
+		return
+	}
 	e.preregisterTags()
 	cfiles := []string{filepath.Join(*repo, "contracts_verif.go")}
 	specs, _ := filepath.Glob(filepath.Join(*verif, "specs", "*.spec"))
@@ -107,6 +112,7 @@ func main() {
 		_ = pprof.StartCPUProfile(f)
 		defer pprof.StopCPUProfile()
 	}
+	e.symbols = loadSymbols(*verif)
 	tv := time.Now()
 	for _, n := range names {
 		if err := e.verifyFunction(n); err != nil {
@@ -142,6 +148,9 @@ func main() {
 	e.solveAll(want, quick, slow, 16, *dump)
 	rep := e.buildReport(*prop, *tier, names, want, time.Since(t0).Seconds())
 	rep.updateExpected = *updExp
+	if *updExp {
+		e.saveSymbols(*verif)
+	}
 	rep.print(*verbose)
 	pprof.StopCPUProfile()
 	code := 0
